@@ -212,8 +212,8 @@ Definition max_len (es : list entry) : N := fold_right (fun e a => N.max (e_len 
 
 (* Walrus::append_for_topic + Writer::write *)
 Definition append (c : Cfg) (s : st) (t : topic) (e : entry) : st * result :=
-  match appendable c t (e_len e) with Some k => (s, RErr k) | None =>
   let '(s1, w) := ensure_writer c s t in
+  match appendable c t (e_len e) with Some k => (s1, RErr k) | None =>
   let ts := get_ts s1 (t_id t) in
   if ts_poisoned ts then (s1, RErr EOther) else
   let nd := need c e in
@@ -263,11 +263,11 @@ Definition mark_unmodelled (s : st) (t : N) : st :=
 
 (* Walrus::batch_append_for_topic + Writer::batch_write *)
 Definition batch (c : Cfg) (be : backend) (s : st) (t : topic) (es : list entry) : st * result :=
-  match appendable c t (max_len es) with Some k => (s, RErr k) | None =>
   let '(s1, w) := ensure_writer c s t in
   let ts := get_ts s1 (t_id t) in
   if c_max_entries c <? N.of_nat (length es) then (s1, RErr EInvalidInput) else
   if c_max_bytes c <? sum_need c es then (s1, RErr EInvalidInput) else
+  match appendable c t (max_len es) with Some k => (s1, RErr k) | None =>
   match es with
   | [] => (s1, ROk)
   | _ =>
